@@ -140,14 +140,14 @@ def roles(fn):
                 names[pat['ch'][1]['local']] = 'sum'
     env0 = N.self_env(fn)
     for cl in walk(fn.hir):
-        if cl.get('k') != 'Closure':
+        if cl.get('k') not in ('Closure', 'For'):
             continue
-        t = dtree.closure_table(fn.hir, cl, env0)
+        t = dtree.body_table(fn.hir, cl, env0)
         valid_rows = [r for r in t if any(c.startswith('VALID(a') for c in r[0])
                       and not any(c.startswith('!VALID(a') or c.startswith('!(VALID(a') for c in r[0])]
         inner = {b['local'] for x in walk(cl) if x.get('k') == 'Block' for st in x.get('stmts', [])
                  if st['k'] == 'Let' for b in _pat_binds(st['pat'])}
-        for x in walk(cl['ch'][0]):
+        for x in walk(cl['ch'][0] if cl.get('k') == 'Closure' else cl['ch'][1]):
             if x.get('k') != 'AssignOp' or x['op'] != 'AddAssign':
                 continue
             tg = peel(x['ch'][0])
@@ -279,12 +279,12 @@ def check_first(run, F):
                                ('AggBasic::argmax', 'Greater', False),
                                ('AggBasic::argmin', 'Less', False)):
         fn = F.one(name)
-        cl = [x for x in walk(fn.hir) if x.get('k') == 'Closure']
+        cl = [x for x in walk(fn.hir) if x.get('k') in ('Closure', 'For')]
         n += 1
         if len(cl) != 1:
-            run.ob('AGG.first', fn, fn.name, False, fn.loc(), 'expected one for_each closure')
+            run.ob('AGG.first', fn, fn.name, False, fn.loc(), 'expected one element loop')
             continue
-        t = dtree.closure_table(fn.hir, cl[0], N.self_env(fn))
+        t = dtree.body_table(fn.hir, cl[0], N.self_env(fn))
         upd = ('ext = Some(a0)', 'ext_idx = Some(pos)')
         adv = ('pos AddAssign 1',)
         cmpc = 'a0.partial_cmp(ext) is Some(Ordering::%s)' % rel
@@ -376,7 +376,7 @@ def check_tables(run, F):
         run.ob('AGG.table', fn, fn.name, leaf == w, fn.loc(), 'body = %s' % leaf)
     fn = F.one('AggValidBasic::count_none')
     t = N.tbl(fn)
-    w = N.T(([], "n'", ['n := 0', 'self.into_iter().for_each(|a0| if !VALID(a0) { n AddAssign 1; })']))
+    w = N.T(([], "n'", ['n := 0', 'for a0 in self.into_iter() { if !VALID(a0) { n AddAssign 1; } }']))
     run.ob('AGG.table', fn, 'count_none', t == w, fn.loc(), dtree.show(t))
     fn = F.one('AggValidBasic::vcount_value')
     t = N.tbl(fn)
@@ -400,11 +400,11 @@ def check_tables(run, F):
     run.ob('AGG.table', fn, 'masked sum filters before the null-skipping fold', ok, fn.loc(), det)
     # percentile_of counting closure
     fn = F.one('AggValidExt::vpercentile_of')
-    cl = [x for x in walk(fn.hir) if x.get('k') == 'Closure']
+    cl = [x for x in walk(fn.hir) if x.get('k') in ('Closure', 'For')]
     if cl:
         env = N.self_env(fn)
         env['__names__'] = roles(fn)
-        t = dtree.closure_table(fn.hir, cl[0], env)
+        t = dtree.body_table(fn.hir, cl[0], env)
         w = N.T((['VALID(a0)', '(a0 < score)'], '()', ['n AddAssign 1', 'C[(a0 < score)] AddAssign 1']),
                 (['VALID(a0)', '(a0 == score)'], '()', ['n AddAssign 1', 'C[(a0 == score)] AddAssign 1']),
                 (['VALID(a0)', '(score < a0)'], '()', ['n AddAssign 1']),
